@@ -290,6 +290,7 @@ func (i *Interp) sprintfC(caller *frame, format string, args []value) *Term {
 		}
 		k++
 		if k >= len(format) {
+			r = StrConcat(r, TStr("%!(NOVERB)")) // as fmt does for a lone % at the end
 			break
 		}
 		// flags / width (only constant-width padding of constants is supported)
